@@ -811,6 +811,28 @@ pub fn probe2(cli: &Cli) {
         for k in [0usize, 1, 0, 1] { let _ = w.sync(k).await; }
         let mut made: Vec<(usize, VaultId, sos_core::SecretId)> = vec![];
         let mode = std::env::var("MODE").unwrap_or_default();
+        if mode == "files-empty" {
+            // the file log is empty on every replica; each device attaches its first external file offline
+            let default = { let a = w.devices[0].lock().await; *a.default_folder().await.unwrap().id() };
+            for d in 0..2usize {
+                let mut a = w.devices[d].lock().await;
+                let p = w.tmp.path().join(format!("first-file-{d}.bin")); std::fs::write(&p, format!("first file of d{d}").as_bytes()).unwrap();
+                let secret: sos_vault::secret::Secret = p.try_into().unwrap();
+                let meta = sos_vault::secret::SecretMeta::new(format!("file-d{d}"), secret.kind());
+                let id = a.create_secret(meta, secret, o(default)).await.unwrap().id;
+                made.push((d, default, id));
+            }
+            for k in [0usize, 1, 0, 1, 0, 1] { let r = w.sync(k).await; println!("sync d{k} {:?}", r); }
+            for d in 0..2usize {
+                let a = w.devices[d].lock().await;
+                use sos_sync::StorageEventLogs; use sos_core::events::EventLog;
+                let n = a.file_log().await.unwrap().read().await.tree().len();
+                let files = { let log = a.file_log().await.unwrap(); let l = log.read().await; sos_reducers::FileReducer::new(&*l).reduce(None).await.unwrap().len() };
+                println!("device {d}: file log length {n}, external files after reduce {files}");
+            }
+            { let r = w.server.read().await; if let Some(s) = r.as_ref() { use sos_sync::StorageEventLogs; use sos_core::events::EventLog; println!("server: file log length {}", s.file_log().await.unwrap().read().await.tree().len()); } }
+            return;
+        }
         if mode == "compact" || mode == "password" {
             // device 1 compacts (or re-keys) the default folder and then adds a secret; device 0 creates a folder
             let default = { let a = w.devices[0].lock().await; *a.default_folder().await.unwrap().id() };
